@@ -10,6 +10,8 @@ import (
 	"fmt"
 	"os"
 
+	"free5gclib/nas/nasConvert"
+	"free5gclib/openapi/models"
 	"stgutg"
 	"tglib"
 
@@ -59,8 +61,25 @@ func main() {
 				snName = "5G:mnc0" + mnc + ".mcc" + mcc + ".3gppnetwork.org"
 			}
 			res := ue.DeriveRESstarAndSetKey(ue.AuthenticationSubs, autn, rnd, snName, mnc, mcc)
-			w.Log(world.Event{Ev: "ctx", I: i, UE: 0, Info: map[string]interface{}{"res_star": hex.EncodeToString(res), "kamf": hex.EncodeToString(ue.Kamf),
-				"knasint": hex.EncodeToString(ue.KnasInt[:]), "knasenc": hex.EncodeToString(ue.KnasEnc[:])}})
+			info := map[string]interface{}{"res_star": hex.EncodeToString(res), "kamf": hex.EncodeToString(ue.Kamf),
+				"knasint": hex.EncodeToString(ue.KnasInt[:]), "knasenc": hex.EncodeToString(ue.KnasEnc[:])}
+			if k2 := str("kamf2"); len(k2) == 64 && len(ue.Kamf) == 32 {
+				// the AMF hands the UE a new K_AMF (horizontal derivation, N2 handover): the context's key
+				// buffer is refreshed in place and the algorithm keys are derived again
+				nb, _ := hex.DecodeString(k2)
+				copy(ue.Kamf, nb)
+				ue.DerivateAlgKey()
+				info["knasint2"], info["knasenc2"] = hex.EncodeToString(ue.KnasInt[:]), hex.EncodeToString(ue.KnasEnc[:])
+			}
+			// the library's own PLMN conversion for this serving network and for its sibling with the
+			// other MNC length (MNC ab <-> 0ab), in one process
+			sib := "0" + mnc
+			if len(mnc) == 3 {
+				sib = mnc[1:]
+			}
+			info["plmn_conv"] = hex.EncodeToString(nasConvert.PlmnIDToNas(models.PlmnId{Mcc: mcc, Mnc: mnc}))
+			info["plmn_conv_sibling"] = hex.EncodeToString(nasConvert.PlmnIDToNas(models.PlmnId{Mcc: mcc, Mnc: sib}))
+			w.Log(world.Event{Ev: "ctx", I: i, UE: 0, Info: info})
 		}
 		os.Exit(0)
 	}
